@@ -610,3 +610,74 @@ def iter_text(expr):
     if isinstance(e, ast.Call) and isinstance(e.func, ast.Attribute) and e.func.attr == "get" and len(e.args) == 2:
         e.args[1] = tup(e.args[1])
     return norm(e)
+
+
+def returned_list_sources(fn):
+    """What the list a function returns is made of, whatever the spelling (a display / comprehension returned per branch, an accumulator
+    filled with append / extend / += and returned at the end): a set of (conditions, loops, "the item" | "each of", source text), or
+    None when a return is not understood.  Conditions and loops are the normalised texts of conds() and of the enclosing for headers."""
+    out = set()
+
+    def key(cs):
+        return " and ".join(sorted(cs))
+
+    def loops_of(node, stop):
+        hs = []
+        cur = getattr(node, "_parent", None)
+        while cur is not None and cur is not stop:
+            if isinstance(cur, ast.For):
+                hs.append(f"for {norm(cur.target)} in {iter_text(cur.iter)}")
+            cur = getattr(cur, "_parent", None)
+        return tuple(reversed(hs))
+
+    def from_value(v, cs, loops):
+        if isinstance(v, (ast.List, ast.Tuple)):
+            for e in v.elts:
+                if isinstance(e, ast.Starred):
+                    out.add((key(cs), loops, "each of", norm(e.value)))
+                else:
+                    out.add((key(cs), loops, "the item", norm(e)))
+            return True
+        if isinstance(v, ast.ListComp):
+            gens = v.generators
+            hs = tuple(f"for {norm(g.target)} in {iter_text(g.iter)}" for g in gens)
+            extra = [norm(c) for g in gens for c in g.ifs]
+            if isinstance(v.elt, ast.Name) and isinstance(gens[-1].target, ast.Name) and gens[-1].target.id == v.elt.id and not gens[-1].ifs and len(gens) >= 2:
+                out.add((key(list(cs) + extra), loops + hs[:-1], "each of", norm(gens[-1].iter)))
+            else:
+                out.add((key(list(cs) + extra), loops + hs, "the item", norm(v.elt)))
+            return True
+        if isinstance(v, ast.Call) and isinstance(v.func, ast.Name) and v.func.id == "list" and len(v.args) == 1:
+            out.add((key(cs), loops, "each of", norm(v.args[0])))
+            return True
+        return False
+    for cs, v, r in returns_with_conds(fn):
+        if v is None:
+            return None
+        if isinstance(v, ast.Name):
+            acc = v.id
+            inits = [n for n in ast.walk(fn) if isinstance(n, ast.Assign) and len(n.targets) == 1 and is_name(n.targets[0], acc)]
+            if len(inits) != 1 or not (isinstance(inits[0].value, ast.List) and not inits[0].value.elts):
+                return None
+            uses = [n for n in ast.walk(fn) if isinstance(n, ast.Name) and n.id == acc]
+            seen = 2        # the initialisation and this return
+            for n in ast.walk(fn):
+                if isinstance(n, ast.Expr) and isinstance(n.value, ast.Call) and isinstance(n.value.func, ast.Attribute) and is_name(n.value.func.value, acc) \
+                        and n.value.func.attr in ("append", "extend") and len(n.value.args) == 1:
+                    c2 = conds(n, fn)
+                    a = n.value.args[0]
+                    if n.value.func.attr == "append":
+                        out.add((key(c2), loops_of(n, fn), "the item", norm(a)))
+                    elif not from_value(a, c2, loops_of(n, fn)):
+                        out.add((key(c2), loops_of(n, fn), "each of", norm(a)))
+                    seen += 1
+                elif isinstance(n, ast.AugAssign) and is_name(n.target, acc) and isinstance(n.op, ast.Add):
+                    c2 = conds(n, fn)
+                    if not from_value(n.value, c2, loops_of(n, fn)):
+                        out.add((key(c2), loops_of(n, fn), "each of", norm(n.value)))
+                    seen += 2 if False else 1
+            if seen != len(uses) - (len([r2 for r2 in returns_of(fn) if is_name(r2.value, acc)]) - 1):
+                return None
+        elif not from_value(v, cs, ()):
+            return None
+    return out
